@@ -70,15 +70,15 @@ func (v *E2Val) ConsAddr() []byte { return v.Cons.PubKey().Address() }
 // E2Options parametrises the environment.
 type E2Options struct {
 	Seed      int64
-	ChainID   string        // default "verif-e2"
-	Powers    []int64       // consensus power per genesis validator (tokens = power * 10^6 ugrain, self delegated); default {10,10,10}
-	Users     []sdk.Coins   // initial coins of every funded user account (len = number of users)
-	NumUsers  int           // if Users is nil: that many users with DefaultUserCoins each
-	ValCoins  sdk.Coins     // liquid coins of every validator operator account (default 1000 GRAIN)
+	ChainID   string                                     // default "verif-e2"
+	Powers    []int64                                    // consensus power per genesis validator (tokens = power * 10^6 ugrain, self delegated); default {10,10,10}
+	Users     []sdk.Coins                                // initial coins of every funded user account (len = number of users)
+	NumUsers  int                                        // if Users is nil: that many users with DefaultUserCoins each
+	ValCoins  sdk.Coins                                  // liquid coins of every validator operator account (default 1000 GRAIN)
 	Genesis   func(cdc codec.Codec, gs app.GenesisState) // last-minute genesis edits (params of any module, extra state)
-	BlockTime time.Duration // fixed block time increment (default 5 s)
-	GenTime   time.Time     // genesis time (default 2024-01-01T12:00:00Z)
-	Gas       uint64        // gas limit of signed txs (default 5_000_000)
+	BlockTime time.Duration                              // fixed block time increment (default 5 s)
+	GenTime   time.Time                                  // genesis time (default 2024-01-01T12:00:00Z)
+	Gas       uint64                                     // gas limit of signed txs (default 5_000_000)
 }
 
 // DefaultUserCoins is what a user gets when only NumUsers is given.
@@ -198,7 +198,7 @@ func NewE2(o E2Options) *E2 {
 			Tokens: tokens, DelegatorShares: math.LegacyNewDecFromInt(tokens),
 			Description:     stakingtypes.Description{Moniker: fmt.Sprintf("v%d", i)},
 			UnbondingHeight: 0, UnbondingTime: time.Unix(0, 0).UTC(),
-			Commission: stakingtypes.NewCommission(math.LegacyNewDecWithPrec(1, 1), math.LegacyNewDecWithPrec(2, 1), math.LegacyNewDecWithPrec(1, 2)),
+			Commission:        stakingtypes.NewCommission(math.LegacyNewDecWithPrec(1, 1), math.LegacyNewDecWithPrec(2, 1), math.LegacyNewDecWithPrec(1, 2)),
 			MinSelfDelegation: math.OneInt(),
 		})
 		stGen.Delegations = append(stGen.Delegations, stakingtypes.NewDelegation(v.Acc.Addr.String(), v.ValAddr.String(), math.LegacyNewDecFromInt(tokens)))
